@@ -14,6 +14,10 @@ RULE = (
     "object reached and re-evaluated on all earlier objects after every step; the object reached by root->A->B must "
     "equal the one reached by root->B.  States are (design, path); non-trivial: the path contains an unseen group or "
     "the design has a multi-column term"
+    '  Added: offsets, float levels that agree to six digits, level lists longer than a printed line, a '
+    'single-level factor, designs without response / without common part (each member on its own printed line '
+    'with its own shape), non-default index labels, a later design on another frame, an in-place edit followed '
+    'by re-evaluation, the one-row frame. '
 )
 ASSUMPTIONS = ["unseen groups are evaluated in 'silent' mode", "a label view of a widened group matrix is not demanded"]
 
